@@ -36,7 +36,7 @@ type Prior struct {
 var priorSrcs = []string{"; only a comment", "", "(", ")", "(f $a $b", "\"unterminated", "$a", "[$LIMIT $N $k]", "(do $x1 $missing)",
 	";; $a\n$a", ";; $a 1 2\n$a", ";; $ 1\n1", "{:k $s1", "(f $a) (g $b)", "¬raw", "#{$s1 $s2}", "\ufeff\ufeff1"}
 
-var nameGen = rapid.SampledFrom([]string{"a", "b", "N", "x1", "a-b", "a_b", "0", "1", "LIMIT", "k", "s1", "s2", "missing", "Z-9_z"})
+var nameGen = rapid.SampledFrom([]string{"a", "b", "N", "x1", "a-b", "a_b", "0", "1", "LIMIT", "k", "s1", "s2", "missing", "Z-9_z", "MODULE", "module", "MODULES", "nil", "true", "x"})
 
 var valOpts = gen.Opts{Str: gen.StrFull, Syms: true, NoNUL: true}
 
